@@ -1,12 +1,135 @@
 """C04 - register dependences are honoured: RAW, WAW and WAR give program-order values."""
+from . import common as C
 from . import syscheck, sysdiff as S
+from .isa import Ins, ALL, R3, I2, U1, B2, B1, LD, ST
+
+
+def scoreboard_check(ctx):
+    """Component correspondence for the register scoreboard of risc/app.go (model Comp/Scoreboard.v,
+    theorems C04_scoreboard_*): the real Context functions and the extracted model execute the same
+    histories of add / delete / hazard-query / flush; every counter map and every answer is compared,
+    and the property behind it (counters = in-flight counts, hazards reported iff real) is evaluated on
+    the implementation's outputs."""
+    ok, out = C.ensure_oracle(ctx, 'sb', ['theories/Comp/Scoreboard.vo'], ['Comp'])
+    if not ok:
+        ctx.broken.append({'file': 'coq/theories/Comp/Scoreboard.v', 'line': None, 'lemma': 'scoreboard oracle build', 'error': out[-800:]})
+        return False, {}
+    rng = ctx.rng
+    n = 3000 if ctx.tier == 'quick' else 60000
+    go_lines, or_lines, metas = [], [], []
+    for _ in range(n):
+        regs = rng.sample(range(0, 32), rng.randint(2, 4)) + [0]
+        fl = []
+        g, o, meta = [], [], []
+        for _ in range(rng.randint(2, 14)):
+            c = rng.random()
+            if c < 0.45 or not fl:
+                m = rng.choice(R3 + I2 + ['mv', 'lw', 'lb', 'sw', 'sb', 'beq', 'bnez', 'li', 'jal', 'nop'])
+                ins = Ins(m, rng.choice(regs), rng.choice(regs), rng.choice(regs), imm=4, label=1)
+                kind = 'A' if c < 0.3 or not fl else 'H'
+                g.append('%s %s' % (kind, ins.asm()))
+                o.append('%s %s|%s' % (kind, ','.join(map(str, ins.reads())), ','.join(map(str, ins.writes()))))
+                meta.append((kind, ins.reads(), ins.writes()))
+                if kind == 'A':
+                    fl.append(ins)
+            elif c < 0.75:
+                k = rng.randrange(len(fl))
+                fl.pop(k)
+                g.append('D %d' % k)
+                o.append('D %d' % k)
+                meta.append(('D', k, None))
+            elif c < 0.85:
+                ws = [rng.choice(regs)]
+                kind = rng.choice('WXQ')
+                g.append('%s %s' % (kind, ','.join(map(str, ws))))
+                o.append('%s %s' % (kind, ','.join(map(str, ws))))
+                meta.append((kind, ws, None))
+            elif c < 0.9:
+                fl = []
+                g.append('F')
+                o.append('F')
+                meta.append(('F', None, None))
+        go_lines.append(';'.join(g))
+        or_lines.append(';'.join(o))
+        metas.append(meta)
+    impl = C.run_lines(C.BUILD + '/harness', 'sb', go_lines, ctx.work, 'sb-go')
+    model = C.run_lines(C.BUILD + '/sb_oracle', 'sb', or_lines, ctx.work, 'sb-or')
+    found = False
+    mism = 0
+    for k, (a, b) in enumerate(zip(impl, model)):
+        if a == b:
+            continue
+        mism += 1
+        if found:
+            continue
+        # is the property itself violated on the implementation?  counters must equal in-flight counts
+        viol = property_violation(metas[k], a)
+        if viol:
+            found = True
+            ctx.violation('counterexample', 'scoreboard: %s | history: %s | implementation: %s | model: %s' % (viol, go_lines[k], a, b),
+                          {'history': go_lines[k], 'observed': a, 'expected': b, 'harness_cmd': 'sb', 'go_case': go_lines[k],
+                           'oracle': 'build/sb_oracle sb', 'spec_case': or_lines[k]})
+        else:
+            ctx.broken.append({'file': 'coq/theories/Comp/Scoreboard.v', 'line': None,
+                               'lemma': 'correspondence of the scoreboard model with risc/app.go', 'harness_cmd': 'sb', 'go_case': go_lines[k],
+                               'error': 'history %s | implementation %s | model %s' % (go_lines[k], a, b)})
+    return found, {'component_evaluations': 2 * len(go_lines), 'scoreboard_histories': len(go_lines), 'scoreboard_mismatches': mism,
+                   'scoreboard_sample': go_lines[0]}
+
+
+def property_violation(meta, impl_line):
+    """independent reference: counters = number of in-flight readers / writers (with multiplicity, zero register
+    skipped) while only A / D / H / F operations were used; hazards reported iff real"""
+    if impl_line is None or impl_line in ('panic', 'parse-error'):
+        return 'the scoreboard functions panicked'
+    outs = impl_line.split(';')
+    fl = []
+    pure = True
+    for (kind, x, y), o in zip(meta, outs):
+        if kind == 'A':
+            fl.append((x, y))
+        elif kind == 'D':
+            if x < len(fl):
+                fl.pop(x)
+        elif kind == 'F':
+            fl = []
+            pure = True
+        elif kind in 'WX':
+            pure = False
+        if not pure:
+            continue
+        pw, pr = {}, {}
+        for rs, ws in fl:
+            for r in rs:
+                if r:
+                    pr[r] = pr.get(r, 0) + 1
+            for w in ws:
+                if w:
+                    pw[w] = pw.get(w, 0) + 1
+        want = 'pw={%s} pr={%s}' % (','.join('%d:%d' % (r, pw[r]) for r in sorted(pw)), ','.join('%d:%d' % (r, pr[r]) for r in sorted(pr)))
+        if not o.startswith(want):
+            return 'pending counters %s differ from the in-flight counts %s' % (o.split(' hz=')[0].split(' q=')[0], want)
+        if kind == 'H':
+            hz = []
+            for r in x:
+                if r and pw.get(r, 0) > 0:
+                    hz.append('0:%d' % r)
+            for w in y:
+                if w:
+                    if pw.get(w, 0) > 0:
+                        hz.append('1:%d' % w)
+                    if pr.get(w, 0) > 0:
+                        hz.append('2:%d' % w)
+            if o != want + ' hz=' + ','.join(hz):
+                return 'hazards reported %s, real hazards %s' % (o.split('hz=')[-1], ','.join(hz))
+    return None
 
 PROFILES = [('hazard', 3), ('alu', 2), ('ssa', 2), ('ssald', 1.5), ('branch', 1), ('ldonly', 1)]
 
 
 def run(ctx):
     return syscheck.run(
-        ctx, 'C04', 'C04', PROFILES, S.PIPELINED, n_quick=120, n_thorough=2000, repeats=2,
+        ctx, 'C04', ['C04', 'C04_scoreboard'], PROFILES, S.PIPELINED, pre=scoreboard_check, n_quick=120, n_thorough=2000, repeats=2,
         assumptions=['each case is run twice per cell (schedule dependence through Go map iteration shows as a differing repeat)'],
         text_rule='register-pressure programs over 2-4 registers (chains, fans, WAW and WAR pairs, loads as slow producers overtaken by fast writers) '
                   'and general ALU programs; all pipelined variants x parallelism 1..4 inside the calibrated domains; non-trivial = the program has a register reused '
